@@ -32,6 +32,8 @@ var solvers = []solverSpec{
 	}, "(set-logic ALL)\n"},
 }
 
+var retryMu sync.Mutex
+
 var unsafeName = regexp.MustCompile(`[^A-Za-z0-9_.#-]+`)
 
 func (o *Obligation) fileBase() string {
@@ -136,7 +138,7 @@ func (vc *VC) discharge(o *Obligation, outDir string, timeoutS int) {
 	}
 	_ = want
 	// phase 1: quick attempt with z3-new
-	quick := 3
+	quick := 4
 	if timeoutS < quick {
 		quick = timeoutS
 	}
@@ -162,6 +164,21 @@ func (vc *VC) discharge(o *Obligation, outDir string, timeoutS int) {
 			vc.finish(o, r, script, outDir, base)
 			return
 		}
+	}
+	// last resort before reporting an undischarged obligation: one more, longer, uncontended attempt
+	// (guards against timeouts caused by machine load rather than by the obligation)
+	if !o.Cover {
+		retryMu.Lock()
+		for _, s := range solvers[:2] {
+			r := runSolver(context.Background(), s, script, outDir, base+".retry", timeoutS*3, false)
+			all = append(all, r)
+			if r.status == "unsat" || r.status == "sat" {
+				retryMu.Unlock()
+				vc.finish(o, r, script, outDir, base)
+				return
+			}
+		}
+		retryMu.Unlock()
 	}
 	o.Result = "unknown"
 	var sb strings.Builder
